@@ -1051,9 +1051,9 @@ def run(chk: core.Check):
         "validity of sub-schemas under properties/items is an arbitrary function in the soundness theorems (python-jsonschema in the run)",
     ]
     chk.rule = (
-        "A: operation shapes from one PRNG (VERIF_SEED): 0-3 parameters per location over a table of schemas (plain string / {} / integer / boolean / enum / bounded), "
+        "A: operation shapes from one PRNG (VERIF_SEED): 0-3 parameters per location over a table of schemas (plain string / {} / integer / boolean / enum / bounded, and without a top-level type: enum-only, minimum-only, anyOf-only), OpenAPI 3.0 (75%) or Swagger 2.0, "
         "required flags, explicit argument none/{}/partial/full/foreign name per location, body none or 1-2 media types (one possibly without serializer) over "
-        "negatable and non-negatable schemas, optional or required, explicit or not; mode Neg with modes [Neg] or [Pos,Neg], mode Pos; non-trivial = an observation "
+        "negatable and non-negatable schemas (40% without a top-level type: properties/required, items, enum, anyOf, allOf only; nullable), optional or required, explicit or not; every labelled part validated against the schema as declared in the document (harness own conversion); mode Neg with modes [Neg] or [Pos,Neg], mode Pos; non-trivial = an observation "
         "(case/skip/reject/raise with the drawn values) whose labels are not uniform.  B: schemas of the fragment (random key subsets and orders, type lists, "
         "empty required, empty-string and non-ASCII property names, chained not-inputs) x location x scripted choices; non-trivial = the mutation succeeds.  "
         "C: integers up to 70 bits, booleans, null, digit/word-like strings.  Distinct by canonical JSON"
@@ -1174,12 +1174,34 @@ def coercion_witness():
     return None
 
 
+def replay_shape(shape, mode="Neg", modes=("Neg",), seeds=(0, 1, 2, 3), n=20):
+    """Re-runs one operation shape on the implementation through the case oracle; returns the failures found."""
+    chk = core.Check("C02", "quick", 0)
+    chk.findings = []  # every failing part is reported, listed region or not
+    stats = {k: 0 for k in ("parts_checked", "absent_labelled_negative", "notset_body_labelled_negative", "wire_valid_negative_parts", "cases_valid_on_the_wire")}
+    with Observer() as obs:
+        for sd in seeds:
+            events, final, _ = run_operation(obs, shape, mode, list(modes), sd, n)
+            for ev in events:
+                if ev["kind"] == "case" and mode == "Neg":
+                    oracle_case(chk, shape, ev, mode, stats)
+    return chk.failures
+
+
 def replay(payload) -> int:
     for b in payload.get("broken_obligations_or_correspondence", []):
         print("broken:", b.get("kind"), b.get("what"))
         print("  input         :", json.dumps(b.get("input"), default=str)[:800])
         print("  implementation:", str(b.get("implementation"))[:800])
         print("  model         :", str(b.get("model"))[:800])
+    seen = set()
     for f in payload.get("failing_inputs", []):
-        print("failing input:", f.get("what"), json.dumps(f.get("input"), default=str)[:800])
+        shape = (f.get("input") or {}).get("shape")
+        key = json.dumps(shape, sort_keys=True)
+        if shape is None or key in seen:
+            continue
+        seen.add(key)
+        fails = [x for x in replay_shape(shape) if x["region"] is None or x["region"] == f.get("region")]
+        print("shape", json.dumps(shape)[:600])
+        print("  ->", "FAILS: " + "; ".join(sorted({x["what"] + " " + str(x["detail"])[:120] for x in fails}))[:600] if fails else "passes")
     return 0
